@@ -1,5 +1,5 @@
 import MidoModel.Tokenizer
-import MidoModel.Generated.Src
+import MidoModel.Generated.SrcTok
 import MidoProofs.SrcTie.Basic
 set_option linter.unusedSimpArgs false
 /-!
